@@ -205,7 +205,8 @@ def proof_audit(prop, tier):
     closed = 0
     axioms = []
     if compiled:
-        rc, out, _ = sh('coqc -Q theories FG theories/Props/%s.v' % prop, 900, cwd=COQ)
+        os.makedirs(os.path.join(CACHE, 'audit'), exist_ok=True)
+        rc, out, _ = sh('coqc -Q theories FG -o %s theories/Props/%s.v' % (os.path.join(CACHE, 'audit', '%s.vo' % prop), prop), 900, cwd=COQ)
         if rc != 0:
             compiled = False
             problems.append('theorem file %s.v does not compile: %s' % (prop, out[-800:]))
@@ -225,7 +226,7 @@ def proof_audit(prop, tier):
     if os.path.exists(pins_v):
         pv = pins_v + 'o'
         if not (os.path.exists(pv) and os.path.getmtime(pv) >= os.path.getmtime(pins_v)
-                and os.path.getmtime(pv) >= os.path.getmtime(vo if os.path.exists(vo) else pins_v)):
+                and os.path.getmtime(pv) >= os.path.getmtime(src)):
             problems.append('Pins/%s.v (pinned theorem statements) does not compile against Props/%s.v' % (prop, prop))
         else:
             pins = strip_comments(open(pins_v).read())
